@@ -119,6 +119,27 @@ def run(tier, seed, replay):
             sp = common.mk_spec(len(specs), [text], flags=dict(fl))
             sp["what"] = [name]
             specs.append(sp)
+    # file-system layouts: globs that match directories (first / middle / last / only), empty directories, nested ones, a file named like a directory
+    Y = "parameters: {p: 1}\n"
+    D = lambda p: {"path": p, "content": "", "dir": True}
+    F = lambda p, c=Y: {"path": p, "content": c}
+    layouts = [
+        ("dirs-last", [F("conf/a.yaml"), D("conf/b.d"), F("conf/c.yaml", "parameters: {q: 2}\n"), D("conf/d.d")], ["conf/*"]),
+        ("dirs-first", [D("conf/0.d"), D("conf/1.d"), F("conf/a.yaml")], ["conf/*"]),
+        ("dirs-only", [D("conf/a.d"), D("conf/b.d"), D("conf/c.d")], ["conf/*"]),
+        ("dirs-only-suffix", [D("conf/a.d"), D("conf/b.d"), F("conf/x.yaml")], ["conf/*.d"]),
+        ("dir-single", [D("conf/a.d")], ["conf/*"]),
+        ("dirs-between-files", [F("conf/a.yaml"), D("conf/b"), D("conf/c"), D("conf/d"), F("conf/e.yaml", "parameters: {q: 2}\n")], ["conf/*"]),
+        ("dirs-two-patterns", [D("x/a.d"), D("y/b.d"), F("x/f.yaml")], ["x/*", "y/*"]),
+        ("nested", [F("conf/a/b/c.yaml"), D("conf/a/b/d"), D("conf/a/e")], ["conf/*", "conf/*/*", "conf/*/*/*"]),
+        ("dot-and-dotdot", [F("conf/a.yaml")], [".", "..", "conf", "conf/."]),
+        ("empty-pattern", [F("conf/a.yaml")], ["", "conf/a.yaml"]),
+        ("many-dirs", [D("conf/d%02d" % i) for i in range(40)] + [F("conf/z.yaml")], ["conf/*"]),
+    ]
+    for name, files, pats in layouts:
+        sp = common.mk_spec(len(specs), files, patterns=pats)
+        sp["what"] = ["layout:" + name]
+        specs.append(sp)
     if replay:
         rp = json.load(open(replay))["replay"]
         specs = [dict(rp, id="0", dump=True, build_info="bi")]
